@@ -2,7 +2,8 @@ import os, sys, importlib.util
 _p = os.path.join(os.path.dirname(os.path.abspath(__file__)), "..", "trees", "treeunits.py")
 _s = importlib.util.spec_from_file_location("treeunits", _p); tu = importlib.util.module_from_spec(_s); _s.loader.exec_module(tu)
 LEVEL = "model_checking"
-UNITS = list(tu.UNITS)
+# the ptree.c walkers (lookup / foreach) carry only C12 (and, for clear, C14) obligations and are the slowest units at the thorough bound: they run under C12; clear stays here for its notifier obligations
+UNITS = [u for u in tu.UNITS if u["id"].endswith("_insert") or u["id"].endswith("_remove") or u["id"] in ("clear", "rb_clear")]
 REQUIRE_CONFIGURED = ["ptree.c", "ptree-bst.c", "ptree-rb.c", "ptree-avl.c"]
 TECHNIQUE = "BOUNDED stand-in (not an unbounded proof): CBMC on the real ptree*.c from every well-formed tree up to a height bound (BST/ptree.c: 3 quick, 4 thorough; RB/AVL: 2 quick, 3 thorough), one symbolic operation, full re-validation; unwinding assertions on"
 LEVEL_TEXT = ("C14 focus: the destroy notifiers receive exactly the pair that leaves the tree (replaced, removed, cleared), never a stored pair; nothing without notifiers. Heap-shape induction is not expressible in CBMC contracts (no inductive heap predicates), so the per-operation step is checked from EVERY well-formed tree "
